@@ -528,6 +528,21 @@ def run_case(case):
                 if vio:
                     labels.append("entry:" + name.split("(")[0])
                     break
+            # "every problem is recorded as a warning": what the strict reader refuses, the
+            # lenient readers must have on their warnings list afterwards
+            strict_refused = any(n == "XMLReader.strict.from_string" and o == "ParserException"
+                                 for n, o in outcomes)
+            if vio is None and lenient_doc is not None and strict_refused and current:
+                for name, make in (("XMLReader.lenient", lambda: XMLReader(ignore_errors=True,
+                                                                           show_warnings=False)),
+                                   ("ODMLReader(XML)", lambda: ODMLReader("XML", show_warnings=False))):
+                    rdr = make()
+                    out = call(lambda: rdr.from_file(path))
+                    if out[0] == "doc" and not list(getattr(rdr, "warnings", [])):
+                        vio = ("read.lenient-warns", "%s.from_file read text the strict reader refuses "
+                               "and recorded no warning" % name)
+                        labels.append("entry:" + name)
+                        break
             # kept parts: a single fault confined to one attribute record, or repeating exactly
             # one complete element
             if vio is None and lenient_doc is not None and len(faults) == 1:
@@ -602,6 +617,21 @@ def run_case(case):
                 if vio:
                     labels.append("entry:" + name)
                     break
+            strict_refused = any(n == "DictReader.strict" and o == "ParserException"
+                                 for n, o in outcomes)
+            if vio is None and lenient_doc is not None and strict_refused and current:
+                readers = [("DictReader.lenient", DictReader(show_warnings=False, ignore_errors=True),
+                            lambda r: r.to_odml(copy.deepcopy(decoded)))]
+                if fmt == "yaml":
+                    readers.append(("ODMLReader(YAML)", ODMLReader("YAML", show_warnings=False),
+                                    lambda r: r.from_file(path)))
+                for name, rdr, run in readers:
+                    out = call(lambda: run(rdr))
+                    if out[0] == "doc" and not list(getattr(rdr, "warnings", [])):
+                        vio = ("read.lenient-warns", "%s read a dictionary the strict reader refuses "
+                               "and recorded no warning" % name)
+                        labels.append("entry:" + name)
+                        break
             if vio is None and lenient_doc is not None and len(faults) == 1 and current and \
                     kind_of(lenient_doc) == "doc":
                 excluded = dup_element_ids(new, faults[0], fmt)
